@@ -158,6 +158,47 @@ fn s_index(rng: &mut Rng, threads: usize) {
    }
 }
 
+/// C20: two program instances constructed and run at the same time on their own threads, under
+/// pools of different sizes, as the very first parallel programs of the process (so the first
+/// evaluation of the process-wide shard count happens concurrently). Each must equal its serial twin.
+/// Run with the data-race detector off: the `static mut` timing counters of ascent::internal are
+/// incremented by both instances without synchronisation (noted in DESIGN.md 4/C20; no relation
+/// reads them), and Miri would stop at that report before anything else can be observed.
+fn s_tenants(rng: &mut Rng) {
+   let graphs: Vec<Vec<(u32, u32)>> = (0..2).map(|_| diamond(rng)).collect();
+   let sizes = [1usize, 3];
+   let handles: Vec<_> = graphs
+      .iter()
+      .cloned()
+      .zip(sizes)
+      .map(|(edges, n)| {
+         std::thread::spawn(move || {
+            let pl = pool(n);
+            pl.install(|| {
+               let p = tc::par::P::default();
+               for e in edges.iter() {
+                  p.edge.push(*e);
+               }
+               let mut p = p;
+               p.run();
+               p.path.iter().cloned().collect::<Vec<(u32, u32)>>()
+            })
+         })
+      })
+      .collect();
+   for (h, edges) in handles.into_iter().zip(graphs) {
+      let rows = h.join().unwrap_or_else(|_| fail("tenants: an instance panicked".to_string()));
+      let mut s = tc::ser::P::default();
+      s.edge = edges;
+      s.run();
+      let want: BTreeSet<(u32, u32)> = s.path.iter().cloned().collect();
+      let got: BTreeSet<(u32, u32)> = rows.iter().cloned().collect();
+      if got != want || rows.len() != got.len() {
+         fail(format!("tenants: instance differs from its solo serial result: {:?} vs {:?}", got, want));
+      }
+   }
+}
+
 fn main() {
    let args: Vec<String> = std::env::args().collect();
    let scenario = args.get(1).map(|s| s.as_str()).unwrap_or("tc");
@@ -169,6 +210,7 @@ fn main() {
       "tc-pools" => s_tc(&mut rng, 1, 3),
       "sp" => s_sp(&mut rng, 3),
       "index" => s_index(&mut rng, 3),
+      "tenants" => s_tenants(&mut rng),
       other => {
          eprintln!("unknown scenario {}", other);
          std::process::exit(2)
